@@ -90,6 +90,37 @@ func VH_spell(a []string) {
 	vAssert(vIff(r1, r2), "spellings-interchangeable")
 }
 
+// VH_spellCtx [pair op exc py]: the two spellings inside a compound expression
+// "S op X WITH e" against the two-entry allowed list [Y, Y WITH e]; X and Y range over every
+// listed id (an AND group / OR alternatives with two members of one family, one of them
+// carrying an exception, matched by two different allowed entries).
+func VH_spellCtx(a []string) {
+	pair, op, exc, py := a[0], a[1], a[2], a[3]
+	ids := vTableIDs()
+	x := ids[vPickInt(0, len(ids)-1, "x")]
+	s1, s2 := x+"+", x+"-or-later"
+	if pair == "only" {
+		s1, s2 = x, x+"-only"
+	}
+	vAssume(vValid(s1))
+	vAssume(vValid(s2))
+	t := x + " WITH " + exc
+	y := ids[vPickInt(0, len(ids)-1, "y")]
+	if py == "1" {
+		y += "+"
+	}
+	e1, e2 := s1+" "+op+" "+t, s2+" "+op+" "+t
+	allowed := []string{y, y + " WITH " + exc}
+	vNote("text", "Satisfies("+vShow(e1)+" vs "+vShow(e2)+", "+vShowList(allowed)+")")
+	r1, err1 := Satisfies(e1, allowed)
+	r2, err2 := Satisfies(e2, allowed)
+	vAssert(vIff(err1 == nil, err2 == nil), "same-validity")
+	vAssert(vIff(r1, r2), "spellings-interchangeable")
+	// and with the roles of the two entries exchanged in the list
+	r3, err3 := Satisfies(e1, []string{allowed[1], allowed[0]})
+	vAssert(vAnd(err3 == nil, vIff(r1, r3)), "spellings-interchangeable")
+}
+
 // VH_bothValid [pair]: for every ACTIVE id both spellings of the pair are valid.
 func VH_bothValid(a []string) {
 	act := spdxlicenses.GetLicenses()
@@ -146,8 +177,10 @@ func VH_case(a []string) {
 	if werr == nil && err == nil && len(l) == 1 && len(want) == 1 {
 		vAssert(vStrEq(l[0], want[0]), "extract-canonical")
 		if !strings.HasSuffix(id, "+") {
-			// the id part is byte-identical to the list entry
+			// the id part is byte-identical to the list entry, and nothing but '+' / WITH follows it
 			vAssert(strings.HasPrefix(l[0], id), "canonical-spelling")
+			rest := l[0][len(id):]
+			vAssert(rest == "" || rest == "+" || strings.HasPrefix(rest, " WITH ") || strings.HasPrefix(rest, "+ WITH "), "canonical-spelling")
 		}
 	}
 	r, err2 := Satisfies(text, []string{canon})
@@ -183,6 +216,11 @@ func VH_listed(a []string) {
 		vAssert(vValid(x), "id-accepted")
 		l, err := ExtractLicenses(x)
 		vAssert(err == nil && len(l) == 1, "id-accepted")
+		if err == nil && len(l) == 1 && a[0] == "active" {
+			// the term is reported under the id's own list spelling ('+' appended for the
+			// listed -or-later forms, which denote "or later")
+			vAssert(vOr(vStrEq(l[0], x), vAnd(strings.HasSuffix(x, "-or-later"), vStrEq(l[0], x+"+"))), "id-reported-as-listed")
+		}
 		r, err2 := Satisfies(x, []string{x})
 		vAssert(vAnd(err2 == nil, r), "id-accepted")
 		return
